@@ -1,5 +1,6 @@
 """C16 — statement parsing is compositional: context never changes a statement's parse."""
 import random
+import re
 from . import common as C
 from . import gen_text as G
 from . import gen_prog as GP
@@ -71,8 +72,11 @@ def merged_assign_minus(sq, kind_of):
     return [o[0] for o in out]
 
 
+_SEP_COMMENTS = re.compile(r"/\*c\*/|/\*\* d \*/|/\*! b \*/|///? ?[dc]\n|//! m\n")
+
+
 def _norm(x):
-    return "".join(x.replace("/*c*/", "").split())
+    return "".join(_SEP_COMMENTS.sub("", x + "\n").split())
 
 
 def explain(sq, wantk, sts, errs, cname, text):
@@ -194,7 +198,8 @@ def check(ctx):
         seqs.append([rnd.choice(good)[0] for _ in range(rnd.randint(2, 6))])
     cases = []
     for sq in seqs:
-        sep = rnd.choice(["", " ", "\n", " /*c*/ "])
+        # separators include comments in the doc-comment spellings, directly above the next statement
+        sep = rnd.choice(["", " ", "\n", " /*c*/ ", " ", "\n", " /** d */ ", "\n/// d\n", "\n// c\n", "\n//! m\n", " /*! b */\n"])
         cname, pre, post = rnd.choice(CONTEXTS) if rnd.random() < 0.5 else CONTEXTS[0]
         k = 0
         if cname in ("if", "while", "for", "gate", "def") and rnd.random() < 0.1:
